@@ -20,7 +20,7 @@ from tensora.problem import Problem
 
 from . import space
 from .am import Fault, Machine
-from .common import TimeLimit, jsonable
+from .common import cap_findings, too_many, TimeLimit, jsonable
 from .poly import Poly
 from .refmodel import reference, support, terms
 from .tensors import (
@@ -592,13 +592,13 @@ def work(unit):
                         "output": {repr(k): repr(v) for k, v in einfo["stored"].items()},
                         "am_steps": einfo["steps"],
                     })
-                if len(findings) > 40:
+                if too_many(findings):
                     break
-            if len(findings) > 40:
+            if too_many(findings):
                 break
     return {
         "stats": dict(stats),
-        "findings": findings[:60],
+        "findings": cap_findings(findings),
         "samples": samples,
         "states": states,
         "transitions": transitions,
